@@ -183,7 +183,7 @@ func init() {
 			"quick":    "table of 0..2 pairs (keys 1..2 bytes, 1-byte values), arbitrary bounds (0..2 bytes, wildcard, inverted), limit 0..3 (less, equal, equal+1, greater than the matches), all flag variants; unary and streamed reads; size cuts: 3 pairs with values of 1 byte / 1.5 MiB / 2 MiB in every combination, streamed with a delete and a put applied between the first two messages; unwind 32",
 			"thorough": "0..3 pairs, values 0..1 bytes, limit 0..4",
 		},
-		Outside: "value sizes other than the three classes of the size-cut harness (1 byte, 1.5 MiB, 2 MiB: sizes are concrete there); gRPC transport; more pairs than the bound",
+		Outside:     "value sizes other than the three classes of the size-cut harness (1 byte, 1.5 MiB, 2 MiB: sizes are concrete there); gRPC transport; more pairs than the bound",
 		Assumptions: []string{"Pebble model M1", "the streamed read is consumed completely by one consumer"},
 	}
 	props["C03"] = &Property{
@@ -207,7 +207,7 @@ func init() {
 			"quick":    "logs of 2 entries (no-op or put, each with/without leader index) and of 3 no-op entries (each with/without leader index), every partition into consecutive apply calls vs one call, arbitrary bookkeeping in the pre-state, strictly ascending indices (steps 1..64); a wildcard range delete followed by a put with prev_kv / a counted delete on a 0..1-pair pre-state, together vs separately",
 			"thorough": "adds delete-range and transaction entries on a 0..1-pair pre-state, and 3-entry logs with puts",
 		},
-		Outside: "reopen / snapshot transfer between apply calls (content preservation there is Pebble's; regatta's side is C04/C08); logs longer than 3 entries",
+		Outside:     "reopen / snapshot transfer between apply calls (content preservation there is Pebble's; regatta's side is C04/C08); logs longer than 3 entries",
 		Assumptions: []string{"Pebble model M1", "two replicas = the same deterministic state machine code run on equal states (model clone)"},
 	}
 	props["C10"] = &Property{
@@ -230,7 +230,7 @@ func init() {
 			"quick":    "one mutation of each kind (put, delete, delete range, transaction with empty / writing / read-only taken branch) at an arbitrary log index (1..64; any 64-bit index for put and empty-branch transaction), followed by a second mutation; 1-byte keys and values",
 			"thorough": "any 64-bit index for every kind",
 		},
-		Outside: "that dragonboat's SyncRead is linearizable and that proposals are totally ordered (model M2 assumes it); concurrent clients beyond the total order",
+		Outside:     "that dragonboat's SyncRead is linearizable and that proposals are totally ordered (model M2 assumes it); concurrent clients beyond the total order",
 		Assumptions: []string{"M2: a proposal is applied by the real FSM.Update at the next log index and its Result returned; reads call the real FSM.Lookup", "Pebble model M1"},
 	}
 	props["C02"] = &Property{
@@ -259,7 +259,7 @@ func init() {
 			"quick":    "transactions with (1 predicate, 1 success op), (0 predicates, 2 success ops), (2 predicates, 0 success ops), each with a one-put failure branch; predicates: any result enum, with/without value target, single key or range; ops: range / put / delete(range) with all flags; pre-state 0..1 pairs (0 for the two-op shape), 1-byte keys/values; read-only transaction (1 predicate) on 0..2 pairs; a transaction (1 predicate, one-put branches) after a plain put / delete / wildcard range delete in the same apply call and in the same command sequence, pre-state 0..1 pairs",
 			"thorough": "adds two ops on a 0..1-pair state, two predicates on 0..2 pairs, 2-byte keys",
 		},
-		Outside: "longer predicate / operation lists; operations with an empty oneof (C16); crash atomicity (C04: one Pebble batch, one commit)",
+		Outside:     "longer predicate / operation lists; operations with an empty oneof (C16); crash atomicity (C04: one Pebble batch, one commit)",
 		Assumptions: []string{"Pebble model M1 (indexed batch reads see earlier writes of the batch)", "predicate semantics as documented in docs/user_guide/transactions.md and the property statement"},
 	}
 	props["C13"] = &Property{
@@ -333,7 +333,7 @@ func init() {
 			"quick":    "catalogue over 3 names with arbitrary membership, ids drawn from (10000, seq] for seq in {absent, 10003, 10007}, arbitrary record versions; one create/delete/list step; delete+recreate; two racing creates (of one name, and of two different names) with every interleaving of their store accesses; diffTables over 2 records x 1 running shard and 1 record x 2 running shards (ids and recover-ids 64-bit symbolic) under all map orders",
 			"thorough": "diffTables 2 x 2",
 		},
-		Outside: "emptiness of a (re)created table's data (the state-machine directory is derived from name and id; exercising FSM.Open needs the file-system model: see C04) and isolation between shards; names containing '/'; actual shard start/stop inside dragonboat; Restore's id switch",
+		Outside:     "emptiness of a (re)created table's data (the state-machine directory is derived from name and id; exercising FSM.Open needs the file-system model: see C04) and isolation between shards; names containing '/'; actual shard start/stop inside dragonboat; Restore's id switch",
 		Assumptions: []string{"M2 with the real LFSM (C13); M4 json round trip of table.Table", "StartOnDiskReplica/HasNodeInfo only record their arguments"},
 	}
 	props["C16"] = &Property{
@@ -360,7 +360,7 @@ func init() {
 			"quick":    "every combination of: table absent / known / unknown; key and range_end absent / 1 arbitrary byte / 1024 bytes / 1025 bytes; value absent / 1 byte / 2 MiB / 2 MiB+1; limit any int64; all boolean flags; each revision filter; transactions with one nested put / delete / range (same classes) or an empty oneof, and with two operations (a put of every class next to an unset oneof or a range, in either order and either branch); Tables create/delete of missing / existing / new name on leader and follower servers; a panic anywhere below the RPC method is a violation",
 			"thorough": "same",
 		},
-		Outside: "field lengths other than the class representatives (lengths only enter through len() comparisons with 0, 1024 and 2 MiB); transactions with more than one operation; gRPC transport-level limits; exact status code for oversize keys/values and for leader-side Tables errors (non-OK and no effect are demanded)",
+		Outside:     "field lengths other than the class representatives (lengths only enter through len() comparisons with 0, 1024 and 2 MiB); transactions with more than one operation; gRPC transport-level limits; exact status code for oversize keys/values and for leader-side Tables errors (non-OK and no effect are demanded)",
 		Assumptions: []string{"M1, M2 (real Engine, Manager, RaftStore+LFSM, ActiveTable, FSM behind the NodeHost model), M4, M5 (status codes as opaque errors)"},
 	}
 	props["C11"] = &Property{
@@ -447,7 +447,7 @@ func init() {
 			"quick":    "messages: every shape of Command (own optional fields; kv; batch 0..2; txn with 0..1 compare/success/failure of every op kind; sequence of 1..2), CommandResult, Txn, RequestOp, ResponseOp, Compare, KeyValue, Range/Put/DeleteRange/Txn request+response, ResponseHeader, ReplicateRequest/Response (all arms), SnapshotChunk; per run one byte-length class (absent, 1, 2 bytes) and one varint class (0; 1..64; 128..383; top bit set) for all fields of the message, every field with its own symbolic content; KeyValue and SnapshotChunk additionally with independent classes per field; SnapshotChunk into a pooled object that held another chunk, and re-used after ResetVT; Command built on a recycled pooled object. framing: 1 record of 1..3 arbitrary bytes, stream cut at every position (reader hands out 1..n bytes per call), received via WriteTo and via Read; 1 record (thorough: 2) read back through a reader that may return short reads (full / 1 byte / half) at every call (engine only)",
 			"thorough": "framing with 2 records",
 		},
-		Outside: "gzip / snappy / zstd compressors and their pooled state under concurrency: compression kernels cannot be encoded (declined; the snappy layer inside the snapshot file is an identity pipe here); fields longer than 2 bytes; varint lengths 3..9; mixed presence patterns inside nested messages; the backup tar writer",
+		Outside:     "gzip / snappy / zstd compressors and their pooled state under concurrency: compression kernels cannot be encoded (declined; the snappy layer inside the snapshot file is an identity pipe here); fields longer than 2 bytes; varint lengths 3..9; mixed presence patterns inside nested messages; the backup tar writer",
 		Assumptions: []string{"the real generated vtproto code and the registered Codec are executed; sync.Pool is a LIFO list (reuse always happens)"},
 	}
 	props["C04"] = &Property{
@@ -493,7 +493,7 @@ func init() {
 			"quick":    "streams of 0..2 records (PUT commands with arbitrary 1-byte keys and values, in key order) plus the final index-carrying command, restored into an empty table with an arbitrary 64-bit MaxInMemLogSize (incl. 0), so the batch threshold falls on every record position; declared index 1..64",
 			"thorough": "0..3 records",
 		},
-		Outside: "production of the stream on the leader (commandSnapshot over a pinned Pebble snapshot: point-in-time is Pebble's snapshot isolation, model M1), the chunk transport and file framing (C18), Manager.Restore's shard start / leader wait / catalogue switch (C14), retry timing, the backup manifest's md5 check, large values",
+		Outside:     "production of the stream on the leader (commandSnapshot over a pinned Pebble snapshot: point-in-time is Pebble's snapshot isolation, model M1), the chunk transport and file framing (C18), Manager.Restore's shard start / leader wait / catalogue switch (C14), retry timing, the backup manifest's md5 check, large values",
 		Assumptions: []string{"M1, M2 (proposals applied by the real FSM.Update), backoff.Retry calls the proposal at most twice", "one Read call of the source delivers one record (snapshotFile.Read contract, C18)"},
 	}
 	props["C05"] = &Property{
@@ -504,6 +504,7 @@ func init() {
 				{Pkg: rp, Func: "VH_C05_round", Args: []int64{0, 1, 1, 1, 14}, Unwind: 64},
 				{Pkg: rp, Func: "VH_C05_round", Args: []int64{1, 4, 1, 1, 14}, Unwind: 64},
 				{Pkg: rp, Func: "VH_C05_round", Args: []int64{2, 2, 0, 1, 7}, Unwind: 64},
+				{Pkg: rp, Func: "VH_C05_split", Args: []int64{4}, Unwind: 64},
 				{Pkg: rp, Func: "VH_C05_vacuity", Expect: "violated"},
 			}
 			if tier == "thorough" {
@@ -512,18 +513,57 @@ func init() {
 			}
 			return r
 		},
-		Covers: map[string][]string{"VH_C05_round": {"end", "completed"}},
+		Covers: map[string][]string{"VH_C05_round": {"end", "completed"}, "VH_C05_split": {"end"}},
 		Bounds: map[string]string{
-			"quick":    "one replication round (real worker.do + proposeBatch pulling from the real LogServer.Replicate over logreader.Simple): leader table in an arbitrary state (0..1 pairs of 1-byte arbitrary key/value) at an arbitrary index L (1 <= L < 2^14, so one- and two-byte varints and the step between them) with the log compacted up to L; follower with the same content, recorded leader index L and an unrelated own index; the leader then applies m commands: m=0; m=1 of 4 kinds (put, delete, range delete, non-idempotent transaction / dummy as generated by vhArbCommand); m=2 of 2 kinds with L < 2^7; arbitrary 64-bit message-size limit (0 = default), so the stream is cut at every position; the stream deadline may pass on the server at any loop iteration (symbolic clock); oracle: follower content == leader content at exactly the follower's recorded leader index, which is one the leader produced and never moves backwards, and a completed round ends at the leader's applied index with result 'tailing'",
+			"quick":    "one replication round (real worker.do + proposeBatch pulling from the real LogServer.Replicate over logreader.Simple): leader table in an arbitrary state (0..1 pairs of 1-byte arbitrary key/value) at an arbitrary index L (1 <= L < 2^14, so one- and two-byte varints and the step between them) with the log compacted up to L; follower with the same content, recorded leader index L and an unrelated own index; the leader then applies m commands: m=0; m=1 of 4 kinds (put, delete, range delete, non-idempotent transaction / dummy as generated by vhArbCommand); m=2 of 2 kinds with L < 2^7; arbitrary 64-bit message-size limit (0 = default), so the stream is cut at every position; the stream deadline may pass on the server at any loop iteration (symbolic clock); oracle: follower content == leader content at exactly the follower's recorded leader index, which is one the leader produced and never moves backwards, and a completed round ends at the leader's applied index with result 'tailing'; (split) one message carrying an arbitrary command of 4 kinds, a put with a 300 KiB value and a small put, so that proposeBatch cuts the message into two proposals at desiredProposalSize: every command applied exactly once",
 			"thorough": "quick + m=2 with L < 2^14, and m=2 of 4 kinds over a table with 0..1 pairs",
 		},
-		Outside: "the 256 KiB proposal-size cut inside proposeBatch (needs values of hundreds of KiB; only the end-of-message cut is reached); the lease/queue scheduling around do() (worker.Start loop, timers, metrics); snapshot recovery when the leader log is ahead (USE_SNAPSHOT path: asserted unreachable here, covered for content by C07); gRPC transport (the stream is an in-memory marshal/unmarshal copy of each message); more than 2 new commands per round; Cached log reader in this round (C06 covers the reader itself); leader-side concurrency (new entries applied while streaming)",
+		Outside: "proposal-size cuts at other positions than after the second of three commands; the lease/queue scheduling around do() (worker.Start loop, timers, metrics); snapshot recovery when the leader log is ahead (USE_SNAPSHOT path: asserted unreachable here, covered for content by C07); gRPC transport (the stream is an in-memory marshal/unmarshal copy of each message); more than 2 new commands per round; Cached log reader in this round (C06 covers the reader itself); leader-side concurrency (new entries applied while streaming)",
 		Assumptions: []string{
 			"M2: the leader table is its real state machine behind a totally ordered log written in the harness (SyncPropose applies and appends an EncodedEntry with a one-byte header, as dragonboat does for uncompressed proposals); the follower is the NodeHost model around the real FSM",
 			"dragonboat log reader contract as in C06 (vhLog)",
 			"context deadlines: WithTimeout's deadline is an instant of the symbolic monotone clock plus the timeout; time.Now() may jump arbitrarily forward",
 			"protohelpers.SizeOfVarint summarised by a case split on the 7-bit class of its argument (equivalent to the library source)",
 			"metrics calls are no-ops; float conversions of symbolic integers flow only into them",
+		},
+	}
+	props["C08"] = &Property{
+		Title: "in-cluster snapshots faithful, point-in-time, installed atomically",
+		Instances: func(tier string) []*Instance {
+			fp := "storage/table/fsm"
+			n := int64(1)
+			if tier == "thorough" {
+				n = 2
+			}
+			r := []*Instance{}
+			for _, st := range []int64{0, 1} {
+				for _, rt := range []int64{0, 1} {
+					r = append(r, &Instance{Pkg: fp, Func: "VH_C08_transfer", Args: []int64{st, rt, n}, Unwind: 64})
+				}
+			}
+			r = append(r,
+				&Instance{Pkg: fp, Func: "VH_C08_cuts", Args: []int64{2}, Unwind: 64, EngineOnly: true},
+				&Instance{Pkg: fp, Func: "VH_C08_stop", Args: []int64{0, 1}, Unwind: 64},
+				&Instance{Pkg: fp, Func: "VH_C08_stop", Args: []int64{1, 1}, Unwind: 64},
+				&Instance{Pkg: fp, Func: "VH_C08_crash", Args: []int64{0}, Unwind: 64},
+				&Instance{Pkg: fp, Func: "VH_C08_crash", Args: []int64{1}, Unwind: 64},
+				&Instance{Pkg: fp, Func: "VH_C08_readacross", Args: []int64{0, 0}, Unwind: 64},
+				&Instance{Pkg: fp, Func: "VH_C08_readacross", Args: []int64{1, 0}, Unwind: 64},
+				&Instance{Pkg: fp, Func: "VH_C08_vacuity", Expect: "violated"},
+			)
+			return r
+		},
+		Covers: map[string][]string{"VH_C08_transfer": {"end", "raced"}, "VH_C08_cuts": {"end"}, "VH_C08_stop": {"end", "recover-stopped"}, "VH_C08_crash": {"end", "crash-during", "crash-after"}, "VH_C08_readacross": {"end"}},
+		Bounds: map[string]string{
+			"quick":    "real PrepareSnapshot/SaveSnapshot/RecoverFromSnapshot, both recoverers' prepare/save/recover, writeLenDelimited, header dispatch, Open/Close: (transfer) all four (saver format, receiver configured format) pairs; saver table with 0..1 arbitrary pairs (1-byte key/value) and arbitrary 64-bit applied and leader index; optionally a put, and a range delete, applied between prepare and save; receiver with 0..1 other pairs; install, then restart of the receiver; (cuts, engine only) sstable stream of 0..2 pairs cut into tables after any Set; (stop) stop signal at any of the first 6 writes of save / first 8 reads of recover, both formats, stopped recover leaves the previous state usable and a later recover installs; (crash) receiver on a strict file system with a durable previous state, crash at any of the first 40 file-system operations issued by regatta during reopen+install or after it, both formats, reopen shows the previous or the snapshot state complete with its indices and a completed install survives; (read across) a streaming range read obtained before an install and first pulled after it, both formats",
+			"thorough": "same with 0..2 pairs in the transferred table",
+		},
+		Outside: "fidelity of Pebble's SST blocks / manifest / checkpoint hard-links and of archive/tar's record format (the payload containers are content-preserving models: M1 extension in model_sst.go); compression applied by dragonboat; tables above the sstable size threshold natively (the cut is explored in the engine only); a read already pulling when the install happens (iterator open on the DB being closed: Pebble-internal behaviour); unary reads racing with the swap between Load() and NewIter (same root cause as the listed finding); crash on the saver side; arbitrary/corrupt header bytes (getRecoverer panics on an unknown type: dragonboat checksums snapshot files, so such a header is not an input)",
+		Assumptions: []string{
+			"M1: sstable.Writer delivers exactly the pairs Set in ascending order to DB.Ingest; EstimatedSize is arbitrary non-decreasing (cuts) or 0; Ingest requires well-formed, mutually non-overlapping tables, makes them durable only if the caller synced the file content, and moves the files; Checkpoint yields a directory holding the flushed content; pebble.Open syncs its own directory (OPTIONS file + dataDir.Sync)",
+			"archive/tar delivers the (name, type, size, bytes) entries written, in order; FileInfoHeader takes name, size and kind from the FileInfo",
+			"encoding/binary.Read/Write summarised for unsigned integers and byte arrays (the reflection path is not interpreted)",
+			"M6 crash model as in C04; dragonboat never runs SaveSnapshot/Update/Sync/Close concurrently with RecoverFromSnapshot (its documented contract), Lookup may run concurrently",
 		},
 	}
 }
